@@ -18,6 +18,8 @@ type Violation struct {
 	Detail string          `json:"detail"`
 	Seed   uint64          `json:"seed"`
 	Case   json.RawMessage `json:"case"` // minimised explicit case
+	// Env: process-wide knobs (set by the orchestrator) the case was run under.
+	Env []string `json:"env,omitempty"`
 }
 
 // Result is what a component batch reports to the orchestrator.
@@ -53,6 +55,32 @@ func Env() (seed uint64, tier string, out string, replay string) {
 		tier = "quick"
 	}
 	return seed, tier, os.Getenv("VERIF_OUT"), os.Getenv("VERIF_REPLAY")
+}
+
+var journal *os.File
+
+// Journal records the case that is about to be run in "$VERIF_OUT.current"
+// (overwriting the previous one). If the process then dies or hangs inside the
+// code under test, the orchestrator re-runs exactly that case in a fresh process
+// to decide whether the crash or hang is reproducible (a violation) or not.
+func Journal(c interface{}) {
+	out := os.Getenv("VERIF_OUT")
+	if out == "" || os.Getenv("VERIF_REPLAY") != "" {
+		return
+	}
+	if journal == nil {
+		f, err := os.OpenFile(out+".current", os.O_CREATE|os.O_RDWR|os.O_TRUNC, 0o644)
+		if err != nil {
+			return
+		}
+		journal = f
+	}
+	b, err := json.Marshal(c)
+	if err != nil {
+		return
+	}
+	journal.WriteAt(b, 0)
+	journal.Truncate(int64(len(b)))
 }
 
 // Write writes the result to path.
